@@ -101,12 +101,18 @@ def pointsto_guard(cmd, timeout, mem_gb):
     cur = []
     pat = re.compile(r'__CPROVER_memory(?!_leak)')
     start = re.compile(r'^\(\d+\) ')
+    event = re.compile(r'^\(\d+\) SHARED_(WRITE|READ)\(')
+    merge = re.compile(r'^\(\d+\) __CPROVER_memory#\d+ == (\(\S+ \? )?__CPROVER_memory#\d+( : __CPROVER_memory#\d+\))?\s*(\n\s*guard:[^\n]*)?(\n//[^\n]*)*\s*$')
 
     def flush():
         if not cur:
             return
         st = ''.join(cur)
         k = len(pat.findall(st))
+        # not accesses themselves: the shared-access event of an access classified on its own statement, and the merge of two
+        # versions of the fallback memory at a control-flow join
+        if k and (event.match(st) or merge.match(st)):
+            k = 0
         if k:
             # a dereference whose case split still lists real objects besides the integer-address fallback (legal when a guarded
             # sentinel such as (void *)-1 is in the points-to set) vs one that resolves to the fallback alone
@@ -298,13 +304,28 @@ def _run_obligation(ob, workroot, keep=False):
     res['properties_checked'] = nprops
     if res['failures']:
         res['verdict'] = 'violated'
-        # obtain a trace for the first failure
-        f0 = res['failures'][0]
-        cmd2 = cbmc_cmd(ob, cfile, extra=['--property', f0['property'], '--trace'], info=info)
-        rc2, out2, err2, wall2 = sh(cmd2, timeout=ob.get('timeout', 600), mem_gb=ob.get('mem_gb', 12))
-        choices = extract_choices(out2)
-        res['trace_choices'] = choices
+        # obtain a trace and replay it natively; failures of the harness/runtime oracles first (a failed pointer check alone is
+        # undefined behaviour that a native run does not observe), at most three candidates
+        cands = sorted(res['failures'], key=lambda f: 0 if '.assertion.' in f['property'] else 1)[:3]
         res['cfile'] = cfile
+        first = None
+        for f0 in cands:
+            cmd2 = cbmc_cmd(ob, cfile, extra=['--property', f0['property'], '--trace'], info=info)
+            rc2, out2, err2, wall2 = sh(cmd2, timeout=ob.get('timeout', 600), mem_gb=ob.get('mem_gb', 12))
+            choices = extract_choices(out2)
+            if first is None:
+                first = (f0, choices)
+            if choices is None:
+                continue
+            ok, log = native_replay(ob, cfile, choices, work, res['failures'])
+            if ok:
+                first = (f0, choices)
+                res['replay_pre'] = (True, log)
+                break
+            res.setdefault('replay_pre', (False, log))
+        f0, choices = first
+        res['trace_choices'] = choices
+        res['failures'] = [f0] + [f for f in res['failures'] if f is not f0]
     else:
         need = ob.get('witnesses')
         if need is None:
@@ -432,7 +453,9 @@ def main():
             ob = obmap[r['name']]
             sig = '%s: %s' % (r['name'], r['failures'][0]['description'])
             rep_ok, rep_log = (False, 'no trace')
-            if r.get('trace_choices') is not None:
+            if r.get('replay_pre') is not None:
+                rep_ok, rep_log = r['replay_pre']
+            elif r.get('trace_choices') is not None:
                 rep_ok, rep_log = native_replay(ob, r['cfile'], r['trace_choices'], os.path.dirname(r['cfile']), r['failures'])
             r['replay'] = {'reproduced': rep_ok, 'log': rep_log[-600:]}
             path = os.path.join(ROOT, 'replays', '%s-%s.json' % (a.prop, r['name']))
